@@ -14,7 +14,8 @@
 (*               secondary>), ledger, volatile, clean, magic, symlink,     *)
 (*               imm_dir_other, other, escaped (outside the target)        *)
 (*    origin     whose bytes: pre | client | anc | ancx | imm_archive |    *)
-(*               unknown                                                   *)
+(*               unknown; for a symbolic link (cls = symlink, no bytes of  *)
+(*               its own): who placed it, anc_link | imm_archive           *)
 (*    heldBefore the target held this path with these bytes before         *)
 (*    vouched    (path, SHA-256 of the bytes) is an entry of the manifest  *)
 (*               the owner of the configured key signed                    *)
